@@ -294,6 +294,12 @@ pub open spec fn truthy(t: GarnishDataType) -> bool {
     t != GarnishDataType::False && t != GarnishDataType::Unit
 }
 
+/// which of the four range instructions `make_range_internal` is running
+pub open spec fn range_instruction(start_exclusive: bool, end_exclusive: bool) -> Instruction {
+    if start_exclusive { if end_exclusive { Instruction::MakeExclusiveRange } else { Instruction::MakeStartExclusiveRange } }
+    else { if end_exclusive { Instruction::MakeEndExclusiveRange } else { Instruction::MakeRange } }
+}
+
 /// left operand types for which indexing by a number has a defined result
 pub open spec fn indexable_by_number(t: GarnishDataType) -> bool {
     t == GarnishDataType::Pair || t == GarnishDataType::List || t == GarnishDataType::CharList || t == GarnishDataType::ByteList
